@@ -14,6 +14,7 @@ if [ -n "$FILES" ]; then
   STILL=$(grep '^FAILED' $B | grep -v test_socket_guard | tr '\n' ' ')
   EXTRA=" | serial re-run of [$FILES]: $(tail -1 $B) ; non-guard failures after re-run: [${STILL:-none}]"
 fi
+if [ -n "${SKIP_CLI:-}" ]; then echo "buidl/ (xdist): $(tail -1 $A)$EXTRA"; echo "cli: not run (the patch touches none of the modules the two CLI programs import: ${SKIP_CLI})"; rm -f $A $B; exit 0; fi
 for try in 1 2; do
   # the CLI tests time out when the machine is busy: wait (up to 3 min) for the 1-minute load average to drop below 8
   for w in $(seq 1 18); do L=$(cut -d' ' -f1 /proc/loadavg | cut -d. -f1); [ "$L" -lt 8 ] && break; sleep 10; done
